@@ -181,6 +181,31 @@ def task_solver_combinations(ctx):
                 ctx.fail("%s.UHF+%s.rejected-before-the-solver-runs" % (target, nm), "the unrestricted guard is not the first statement of the branch that calls scf_forward%d" % conv)
 
 
+def replay_mixed_active_states(model):
+    """real code: a batch of two waters with per-molecule active states [0, 1] (and [1, 0]) and NO excited-state settings must be
+    rejected, like active_state = 1 is."""
+    import io, contextlib
+    import torch
+    from seqm.seqm_functions.constants import Constants
+    from seqm.Molecule import Molecule
+    from seqm.ElectronicStructure import Electronic_Structure
+
+    torch.set_default_dtype(torch.float64)
+    w = [[0.0, 0.0, 0.0], [0.96, 0.0, 0.0], [-0.24, 0.93, 0.0]]
+    out = {}
+    for act in ([0, 1], [1, 0]):
+        params = {"method": "AM1", "scf_eps": 1e-7, "scf_converger": [1], "sp2": [False, 1e-5], "elements": [0, 1, 8], "learned": [], "pair_outer_cutoff": 1e10, "eig": True}
+        mol = Molecule(Constants(), params, torch.tensor([w, w]), torch.tensor([[8, 1, 1], [8, 1, 1]]))
+        mol.active_state = torch.tensor(act)
+        try:
+            with contextlib.redirect_stdout(io.StringIO()):
+                Electronic_Structure(params)(mol)
+            out[str(act)] = "accepted: Etot = %s" % [round(float(x), 6) for x in mol.Etot]
+        except Exception as exc:  # noqa
+            out[str(act)] = "rejected: %s" % str(exc)[:80]
+    return {"reproduced": any(v.startswith("accepted") for v in out.values()), "requests": out}
+
+
 def task_excited_state_guards(ctx):
     """an excited active state without excited-state settings, out-of-range initial states and UHF + excited states reach a raise before any result."""
     import seqm.basics as B
@@ -205,6 +230,40 @@ def task_excited_state_guards(ctx):
             ctx.ok("excited-active-state-without-settings.rejected@p%d" % p.path_id, "path-exploration", detail=repr(p.raised)[:120])
         else:
             ctx.fail("excited-active-state-without-settings.rejected@p%d" % p.path_id, "returned %r / %r" % (type(p.value).__name__, p.raised))
+    # per-molecule request: a batch is accepted only if NO molecule asks for an excited state (symbolic active states 0..2)
+    a0, a1 = integer("active0"), integer("active1")
+    rep = []
+
+    def rp(m_):
+        if not rep:
+            try:
+                rep.append(replay_mixed_active_states({}))
+            except Exception as exc:  # noqa
+                rep.append({"reproduced": False, "error": repr(exc)[:300]})
+        return rep[0]
+
+    def thunk_b():
+        assume((a0 >= 0) & (a0 <= 2) & (a1 >= 0) & (a1 <= 2))
+        mol = ghost_es_molecule()
+        C14._const_tables(mol)
+        mol.active_state = st.T(np.array([a0, a1], dtype=object), st.int64, True)
+        en = C14._make_energy(C14._ham_out(mol, nconv=st.tensor([False, False])))
+        return fn(en, mol, {}, all_terms=True)
+
+    ex = ctx.explore(thunk_b, stubs=C14.energy_stubs(rec), name="Energy.forward per-molecule active states", max_paths=64)
+    kinds = set()
+    for p in ex.paths:
+        if p.raised is not None and isinstance(p.raised, Unmodelled):
+            raise p.raised
+        if p.raised is None:
+            kinds.add("accepted")
+            ctx.prove("excited-active-state-without-settings.accepted=>every-molecule-asks-for-the-ground-state@p%d" % p.path_id, (a0 == 0) & (a1 == 0), pc=p.pc, replay=rp,
+                      classify=lambda m_, r: "mixed-ground-and-excited-request-accepted")
+        else:
+            kinds.add("rejected")
+            ctx.prove("excited-active-state-without-settings.rejected=>some-molecule-asks-for-an-excited-state@p%d" % p.path_id, (a0 > 0) | (a1 > 0), pc=p.pc)
+    if kinds != {"accepted", "rejected"}:
+        ctx.error("excited-active-state-without-settings.paths", "expected accepting and rejecting paths, got %r" % (kinds,))
     # static guards
     src = inspect.getsource(B.Energy.__init__)
     ctx.under_contract(BAS + ":Energy.__init__", note="guard presence (AST)")
